@@ -614,7 +614,9 @@ register("C12",
                            # S and *S of one struct provider wanted by one provider function
                            ("b", {"p_func": 0.3, "p_both_struct_forms": 1.0, "units": [1, 2]})],
                    _pairs_c02, {"C12"}, _has(("struct", "field")),
-                   n_quick=180, n_thorough=1500)])
+                   n_quick=180, n_thorough=1500),
+          # fields of empty-interface type: value form and pointer form are mutually assignable
+          lambda rep, tier: __import__("vlib.c12tier", fromlist=["x"]).run_empty_iface_fields(rep, tier)])
 
 
 def _c13_part(rep, tier):
